@@ -38,6 +38,25 @@ CLAIMED = {
         "note": _NOTE + " File system and tomli.load are replaced by in-memory stubs; TOML syntax, argparse and path resolution are outside the claim.",
         "technique": "CrossHair symbolic execution + z3 against a 25-line precedence oracle written from the documentation",
     },
+    "C11": {
+        "design_ref": "DESIGN.md section 5 C11",
+        "text": ("Bounded symbolic execution of BaseNodeVisitor.show_error's enable / file-level / trailing / own-line ignore "
+                 "logic, get_unused_ignores and the unused/bare ignore reporters on files of <= 3 (quick) / <= 4 (thorough) lines "
+                 "over 9 line kinds: the solver ranges over line number and code of up to two diagnostics, the enabled flags and "
+                 "the text of the comment (code names containing one another), against the projection rules of the statement."),
+        "note": _NOTE + " Error-code names are a 3-member test enum (aa, aab, baa); NameCheckVisitor's choice of the node a diagnostic is attached to is outside the claim.",
+        "technique": "CrossHair symbolic execution + z3 against a 35-line projection oracle",
+    },
+    "C16": {
+        "design_ref": "DESIGN.md section 5 C16",
+        "text": ("Kernel claim. H16a: _apply_changes_to_lines for every deleted subset / number of added lines on files <= 5 lines "
+                 "equals the documented Replacement meaning. H16b: the real add-ignores proposal + application loop on 7 file "
+                 "layouts with a symbolic diagnostics table reaches zero failures within 2n+2 rounds, keeps statements and the "
+                 "syntax tree, and every added comment silences only its own diagnostic (4 known findings stepped around). "
+                 "H16c: get_line_range_for_node equals the parser's lineno..end_lineno on 7 multi-line statement shapes."),
+        "note": _NOTE + " The fix producers inside the visitor (ast_decompiler based) are outside the claim.",
+        "technique": "CrossHair symbolic execution + z3; fixpoint loop unrolled to 2n+2 rounds",
+    },
 }
 
 _PENDING = "harness not landed yet in this commit (build in progress; see DESIGN.md section 9)"
